@@ -35,9 +35,17 @@ MUTANTS = [
     ("tactic4-recursion-sign", POLY, "sign = 1 if term.get_coefficient(var_to_elim) > 0 else -1", "sign = 1", ["C04"], []),
     ("tlp-assert", POLY, 'if len(indices) < num_vars_to_elim:\n            raise ValueError("Context has insufficient information")', "assert len(indices) >= num_vars_to_elim", ["C14"], []),
     ("compose-drop-self-a", IOC, "assumptions = new_a | self.a", "assumptions = new_a", ["C01"], []),
+    ("compose-simplify-sides-against-each-other", IOC, "(g1, used) = g1_t.elim_vars_by_relaxing(g2_t, intvars, False, tactics_order)\n        tactics_used.append(used)\n        (g2, used) = g2_t.elim_vars_by_relaxing(g1_t, intvars, False, tactics_order)", "(g1, used) = g1_t.elim_vars_by_relaxing(g2_t, intvars, simplify, tactics_order)\n        tactics_used.append(used)\n        (g2, used) = g2_t.elim_vars_by_relaxing(g1_t, intvars, simplify, tactics_order)", ["C15"], ["C01"]),
+    ("merge-drops-other-guarantees", IOC, "guarantees = self.g | other.g", "guarantees = self.g", ["C08", "C15"], []),
+    ("merge-assumptions-intersection", IOC, "assumptions = self.a | other.a\n        guarantees", "assumptions = self.a & other.a\n        guarantees", ["C08"], []),
+    ("refines-no-tolerance", POLY, 'if -res["fun"] <= b_temp + LP_ROUNDOFF_TOLERANCE:', 'if -res["fun"] <= b_temp:', ["C03"], []),
+    ("refines-ignores-last-row", POLY, "for i in range(n_r):\n            constraint = a_r[[i], :]", "for i in range(n_r - 1):\n            constraint = a_r[[i], :]", ["C03"], []),
+    ("quotient-always-extends", IOC, "if assumptions.refines(other.a):", "if True:", ["C02"], []),
     ("compose-wrong-context", IOC, "other.a | other.g, assumptions_forbidden_vars, simplify=True, tactics_order=tactics_order", "other.a, assumptions_forbidden_vars, simplify=True, tactics_order=tactics_order", [], []),
     ("tactic2-polarity", POLY, "polarity = 1\n        if refine:\n            polarity = -1\n        objective = [polarity * term.get_coefficient(var) for var in variables]", "polarity = -1\n        if refine:\n            polarity = 1\n        objective = [polarity * term.get_coefficient(var) for var in variables]", ["C04"], []),
-    ("reduce-strict", POLY, '(res["status"] == 0 and -res["fun"] <= b_temp[i])', '(res["status"] == 0 and -res["fun"] < b_temp[i])', ["C07"], []),
+    ("reduce-drops-near-redundant", POLY, '(res["status"] == 0 and -res["fun"] <= b_temp[i])', '(res["status"] == 0 and -res["fun"] <= b_temp[i] + 0.5)', ["C07"], []),
+    ("reduce-keeps-implied", POLY, '(res["status"] == 0 and -res["fun"] <= b_temp[i])', '(res["status"] == 0 and -res["fun"] <= b_temp[i] - 0.5)', ["C07"], []),
+    ("reduce-strict-is-harmless", POLY, '(res["status"] == 0 and -res["fun"] <= b_temp[i])', '(res["status"] == 0 and -res["fun"] < b_temp[i])', [], ["C07"]),
     ("list-union-concat", LISTS, "return list1 + [el for el in list2 if (el not in list1)]", "return list1 + list2", ["C06"], []),
     ("combine-optional-floats", DATA, "    return f1 + f2\n", "    return f1\n", ["C09"], []),
 ]
